@@ -72,6 +72,7 @@ theorem stepB_eq {cap : Nat} {s : TM} (hi : Inv s) (op : Op) : stepB cap ⟨s, f
   | startfail d => simp [stepB, stepBWith, step, stepWith]
   | stop id => simp [stepB, stepBWith, step, stepWith]
   | delete id => simp [stepB, stepBWith, step, stepWith]
+  | drain => simp [stepB, stepBWith, step, stepWith]
   | write db rp pts =>
     simp only [stepB, stepBWith, step, stepWith, writePointsWith, Bool.false_eq_true, if_false]
     exact forkBatchB pts s hi
